@@ -46,6 +46,8 @@ package memefish
 // @   ensures[C07] precdef: precOK(result)
 // @   ensures[C05] pf: pf(result)
 // @   ensures[C05] range: within(result, lowerBound(), p.Lexer.Token.Pos)
+// @   ensures[C06] nilkeeps: !notNil(result) && len(p.errors) == old(len(p.errors)) ==> p.Lexer.Token.Pos == old(p.Lexer.Token.Pos) && trivStart(p.Lexer) == old(trivStart(p.Lexer))
+// @   ensures[C06] exact: len(p.errors) == old(len(p.errors)) ==> spans(result, lowerBound(), trivStart(p.Lexer))
 // @   panics when true
 // @   modifies p.Lexer, p.errors, cur(p.Lexer).pos, cur(p.Lexer).Token.*, cur(p.Lexer).lastTokenKind, cur(p.Lexer).dotIdent, p.Lexer.File.lines
 // @   loop * invariant ParserInv(p) && (p.Lexer == old(p.Lexer) || fresh(p.Lexer)) && p.Lexer.File == old(p.Lexer.File) && p.Lexer.Token.Pos >= old(p.Lexer.Token.Pos) && len(p.errors) >= old(len(p.errors))
@@ -71,6 +73,7 @@ package memefish
 // @   ensures[C07] precdef: precOK(result)
 // @   ensures[C05] pf: pf(result)
 // @   ensures[C05] range: within(result, lowerBound(), p.Lexer.Token.Pos)
+// @   ensures[C06] exact: len(p.errors) == old(len(p.errors)) ==> spans(result, lowerBound(), trivStart(p.Lexer))
 // @   ensures[C03] progress: len(p.errors) == old(len(p.errors)) ==> p.Lexer.Token.Pos > old(p.Lexer.Token.Pos)
 // @   ensures[C18,C05] freshres: freshRef(result)
 // @   panics when true
@@ -97,6 +100,8 @@ package memefish
 // @   ensures[C07] precdef: precOK(result)
 // @   ensures[C05] pf: pf(result)
 // @   ensures[C05] range: within(result, lowerBound(), p.Lexer.Token.Pos)
+// @   ensures[C06] nilkeeps: !notNil(result) && len(p.errors) == old(len(p.errors)) ==> p.Lexer.Token.Pos == old(p.Lexer.Token.Pos) && trivStart(p.Lexer) == old(trivStart(p.Lexer))
+// @   ensures[C06] exact: len(p.errors) == old(len(p.errors)) ==> spans(result, lowerBound(), trivStart(p.Lexer))
 // @   panics when true
 // @   modifies p.Lexer, p.errors, cur(p.Lexer).pos, cur(p.Lexer).Token.*, cur(p.Lexer).lastTokenKind, cur(p.Lexer).dotIdent, p.Lexer.File.lines
 // @   loop * invariant ParserInv(p) && (p.Lexer == old(p.Lexer) || fresh(p.Lexer)) && p.Lexer.File == old(p.Lexer.File) && p.Lexer.Token.Pos >= old(p.Lexer.Token.Pos) && len(p.errors) >= old(len(p.errors))
@@ -153,6 +158,7 @@ package memefish
 // @ func memefish.(*Parser).nextToken
 // @   props C03 C09
 // @   requires ParserInv0(p)
+// @   ensures[C06] lastend: trivStart(p.Lexer) == old(p.Lexer.Token.End)
 // @   ensures[C10] faithfulw: faithfulW(p.Lexer)
 // @   ensures[C10] faithful: strong(self) ==> faithful(p.Lexer)
 // @   ensures ParserInv(p) && p.Lexer == old(p.Lexer)
@@ -192,6 +198,7 @@ package memefish
 // @ func memefish.(*Parser).expect
 // @   props C03 C09
 // @   requires ParserInv(p)
+// @   ensures[C06] lastend: trivStart(p.Lexer) == old(p.Lexer.Token.End)
 // @   ensures[C10] faithfulw: faithfulW(p.Lexer)
 // @   ensures[C10] faithful: strong(self) ==> faithful(p.Lexer)
 // @   ensures ParserInv(p) && p.Lexer == old(p.Lexer)
@@ -206,6 +213,7 @@ package memefish
 // @ func memefish.(*Parser).expectIdent
 // @   props C03 C09
 // @   requires ParserInv(p)
+// @   ensures[C06] lastend: trivStart(p.Lexer) == old(p.Lexer.Token.End)
 // @   ensures[C10] faithfulw: faithfulW(p.Lexer)
 // @   ensures[C10] faithful: strong(self) ==> faithful(p.Lexer)
 // @   ensures ParserInv(p) && p.Lexer == old(p.Lexer)
@@ -218,6 +226,7 @@ package memefish
 // @ func memefish.(*Parser).expectKeywordLike
 // @   props C03 C09
 // @   requires ParserInv(p)
+// @   ensures[C06] lastend: trivStart(p.Lexer) == old(p.Lexer.Token.End)
 // @   ensures[C10] faithfulw: faithfulW(p.Lexer)
 // @   ensures[C10] faithful: strong(self) ==> faithful(p.Lexer)
 // @   ensures ParserInv(p) && p.Lexer == old(p.Lexer)
@@ -382,10 +391,12 @@ package memefish
 // @   ensures[C05] range: within(result, old(p.Lexer.Token.Pos), p.Lexer.Token.Pos)
 // @   ensures[C05] pf: pf(result)
 // @   ensures[C05] range: within(result, lowerBound(), p.Lexer.Token.Pos)
+// @   ensures[C06] exact: len(p.errors) == old(len(p.errors)) ==> spans(result, lowerBound(), trivStart(p.Lexer))
 // @   panics when true
 // @   modifies p.Lexer, p.errors, cur(p.Lexer).pos, cur(p.Lexer).Token.*, cur(p.Lexer).lastTokenKind, cur(p.Lexer).dotIdent, p.Lexer.File.lines
 // @   loop 0 invariant ParserInv(p) && (p.Lexer == old(p.Lexer) || fresh(p.Lexer)) && p.Lexer.File == old(p.Lexer.File) && p.Lexer.Token.Pos >= old(p.Lexer.Token.Pos) && len(p.errors) >= old(len(p.errors)) && len(nodes) >= 1 && wf(nodes) && pf(nodes) && within(nodes, old(p.Lexer.Token.Pos), p.Lexer.Token.Pos)
 // @   loop 0 invariant[C10] faithfull: faithfulW(p.Lexer) && (strong(doParse) ==> faithful(p.Lexer))
+// @   loop 0 invariant[C06] exactl: len(p.errors) == old(len(p.errors)) ==> spans(nodes, old(p.Lexer.Token.Pos), trivStart(p.Lexer))
 // @   loop 0 decreases len(p.Lexer.Buffer) - p.Lexer.Token.Pos
 
 // @ func memefish.parseStatements
@@ -425,6 +436,7 @@ package memefish
 // @   ensures[C07] precdef: precOK(result)
 // @   ensures[C05] pf: pf(result)
 // @   ensures[C05] range: within(result, lowerBound(), p.Lexer.Token.Pos)
+// @   ensures[C06] exact: len(p.errors) == old(len(p.errors)) ==> spans(result, lowerBound(), trivStart(p.Lexer))
 // @   panics never
 // @   modifies p.Lexer, p.errors, cur(p.Lexer).pos, cur(p.Lexer).Token.*, cur(p.Lexer).lastTokenKind, cur(p.Lexer).dotIdent, p.Lexer.File.lines
 
@@ -460,46 +472,55 @@ package memefish
 // @   ensures[C07] level: prec(result) <= 12 && parenfree(result)
 // @   loop 0 invariant[C07] lvl: prec(expr) <= 12 && parenfree(expr) && precOK(expr)
 // @   loop 0 invariant chainInv(p, expr, old(len(p.errors)), old(p.Lexer.Token.Pos)) && freshRef(expr)
+// @   loop 0 invariant[C06] exactl: len(p.errors) == old(len(p.errors)) ==> spans(expr, lowerBound(), trivStart(p.Lexer))
 // @ func memefish.(*Parser).parseAnd
 // @   inherit parser
 // @   ensures[C07] level: prec(result) <= 11 && parenfree(result)
 // @   loop 0 invariant[C07] lvl: prec(expr) <= 11 && parenfree(expr) && precOK(expr)
 // @   loop 0 invariant chainInv(p, expr, old(len(p.errors)), old(p.Lexer.Token.Pos)) && freshRef(expr)
+// @   loop 0 invariant[C06] exactl: len(p.errors) == old(len(p.errors)) ==> spans(expr, lowerBound(), trivStart(p.Lexer))
 // @ func memefish.(*Parser).parseBitOr
 // @   inherit parser
 // @   ensures[C07] level: prec(result) <= 8 && parenfree(result)
 // @   loop 0 invariant[C07] lvl: prec(expr) <= 8 && parenfree(expr) && precOK(expr)
 // @   loop 0 invariant chainInv(p, expr, old(len(p.errors)), old(p.Lexer.Token.Pos)) && freshRef(expr)
+// @   loop 0 invariant[C06] exactl: len(p.errors) == old(len(p.errors)) ==> spans(expr, lowerBound(), trivStart(p.Lexer))
 // @ func memefish.(*Parser).parseBitXor
 // @   inherit parser
 // @   ensures[C07] level: prec(result) <= 7 && parenfree(result)
 // @   loop 0 invariant[C07] lvl: prec(expr) <= 7 && parenfree(expr) && precOK(expr)
 // @   loop 0 invariant chainInv(p, expr, old(len(p.errors)), old(p.Lexer.Token.Pos)) && freshRef(expr)
+// @   loop 0 invariant[C06] exactl: len(p.errors) == old(len(p.errors)) ==> spans(expr, lowerBound(), trivStart(p.Lexer))
 // @ func memefish.(*Parser).parseBitAnd
 // @   inherit parser
 // @   ensures[C07] level: prec(result) <= 6 && parenfree(result)
 // @   loop 0 invariant[C07] lvl: prec(expr) <= 6 && parenfree(expr) && precOK(expr)
 // @   loop 0 invariant chainInv(p, expr, old(len(p.errors)), old(p.Lexer.Token.Pos)) && freshRef(expr)
+// @   loop 0 invariant[C06] exactl: len(p.errors) == old(len(p.errors)) ==> spans(expr, lowerBound(), trivStart(p.Lexer))
 // @ func memefish.(*Parser).parseBitShift
 // @   inherit parser
 // @   ensures[C07] level: prec(result) <= 5 && parenfree(result)
 // @   loop 0 invariant[C07] lvl: prec(expr) <= 5 && parenfree(expr) && precOK(expr)
 // @   loop 0 invariant chainInv(p, expr, old(len(p.errors)), old(p.Lexer.Token.Pos)) && freshRef(expr)
+// @   loop 0 invariant[C06] exactl: len(p.errors) == old(len(p.errors)) ==> spans(expr, lowerBound(), trivStart(p.Lexer))
 // @ func memefish.(*Parser).parseAddSub
 // @   inherit parser
 // @   ensures[C07] level: prec(result) <= 4 && parenfree(result)
 // @   loop 0 invariant[C07] lvl: prec(expr) <= 4 && parenfree(expr) && precOK(expr)
 // @   loop 0 invariant chainInv(p, expr, old(len(p.errors)), old(p.Lexer.Token.Pos)) && freshRef(expr)
+// @   loop 0 invariant[C06] exactl: len(p.errors) == old(len(p.errors)) ==> spans(expr, lowerBound(), trivStart(p.Lexer))
 // @ func memefish.(*Parser).parseMulDiv
 // @   inherit parser
 // @   ensures[C07] level: prec(result) <= 3 && parenfree(result)
 // @   loop 0 invariant[C07] lvl: prec(expr) <= 3 && parenfree(expr) && precOK(expr)
 // @   loop 0 invariant chainInv(p, expr, old(len(p.errors)), old(p.Lexer.Token.Pos)) && freshRef(expr)
+// @   loop 0 invariant[C06] exactl: len(p.errors) == old(len(p.errors)) ==> spans(expr, lowerBound(), trivStart(p.Lexer))
 // @ func memefish.(*Parser).parseSelector
 // @   inherit parser
 // @   ensures[C07] level: prec(result) <= 1 && parenfree(result)
 // @   loop 0 invariant[C07] lvl: prec(expr) <= 1 && parenfree(expr) && precOK(expr)
 // @   loop 0 invariant chainInv(p, expr, old(len(p.errors)), old(p.Lexer.Token.Pos)) && freshRef(expr)
+// @   loop 0 invariant[C06] exactl: len(p.errors) == old(len(p.errors)) ==> spans(expr, lowerBound(), trivStart(p.Lexer))
 // @ func memefish.(*Parser).parseIdentOrPath
 // @   inherit parser
 // @   ensures len(result) >= 1
@@ -584,6 +605,7 @@ package memefish
 // @   ensures result == join && wf(result)
 // @   ensures[C05] pf: pf(result)
 // @   ensures[C05] range: within(result, lowerBound(), p.Lexer.Token.Pos)
+// @   ensures[C06] exact: len(p.errors) == old(len(p.errors)) ==> spans(result, lowerBound(), trivStart(p.Lexer))
 // @   panics when true
 // @   modifies p.Lexer, p.errors, cur(p.Lexer).pos, cur(p.Lexer).Token.*, cur(p.Lexer).lastTokenKind, cur(p.Lexer).dotIdent, p.Lexer.File.lines, node(join).Sample
 
@@ -603,6 +625,7 @@ package memefish
 // @   ensures[C07] precdef: precOK(result)
 // @   ensures[C05] pf: pf(result)
 // @   ensures[C05] range: within(result, lowerBound(), p.Lexer.Token.Pos)
+// @   ensures[C06] exact: len(p.errors) == old(len(p.errors)) ==> spans(result, lowerBound(), trivStart(p.Lexer))
 // @   ensures result == e || freshRef(result)
 // @   panics when true
 // @   modifies p.Lexer, p.errors, cur(p.Lexer).pos, cur(p.Lexer).Token.*, cur(p.Lexer).lastTokenKind, cur(p.Lexer).dotIdent, p.Lexer.File.lines
@@ -610,6 +633,7 @@ package memefish
 // @ func memefish.(*Parser).parseTableExpr
 // @   inherit parser
 // @   loop 0 invariant chainInv(p, join, old(len(p.errors)), old(p.Lexer.Token.Pos)) && freshRef(join)
+// @   loop 0 invariant[C06] exactl: len(p.errors) == old(len(p.errors)) ==> spans(join, lowerBound(), trivStart(p.Lexer))
 
 // @ func memefish.(*Parser).tryParseFrom
 // @   inherit parseropt
@@ -634,6 +658,7 @@ package memefish
 // @   ensures[C07] precdef: precOK(result)
 // @   ensures[C05] pf: pf(result)
 // @   ensures[C05] range: within(result, lowerBound(), p.Lexer.Token.Pos)
+// @   ensures[C06] exact: len(p.errors) == old(len(p.errors)) ==> spans(result, lowerBound(), trivStart(p.Lexer))
 // @   ensures[C18,C05] freshres: freshRef(result)
 // @   panics when true
 // @   modifies p.Lexer, p.errors, cur(p.Lexer).pos, cur(p.Lexer).Token.*, cur(p.Lexer).lastTokenKind, cur(p.Lexer).dotIdent, p.Lexer.File.lines
